@@ -33,6 +33,12 @@ class BVExec:
             return r
         if v.k == "undef":
             return self.bv.const(0, int_bits(v.ty) or 1)
+        if v.k == "global":
+            g = self.m.globals.get(v.name)
+            if g is not None and not g.get("const") and int_bits(g.get("ty", "")):
+                # a mutable scalar with static storage: a cell whose content on entry is unknown (fresh, unconstrained bits) -
+                # if it reaches the result the comparison with the specification fails, if it does not it is harmless
+                return ("cell", "@" + v.name)
         raise Top("operand kind %s" % v.k)
 
     def run(self, fn, args):
@@ -248,6 +254,12 @@ class BVExec:
                 raise Top("load at %s (outside the integer-only fragment)" % i.loc)
             cur = env.get(("mem", pv[1]))
             want = int_bits(i.ty) or {"float": 32, "double": 64}.get(i.ty)
+            if cur is None and pv[1].startswith("@") and want:
+                if not hasattr(self, "fresh"):
+                    self.fresh = {}
+                if pv[1] not in self.fresh:
+                    self.fresh[pv[1]] = bv.inputs(512 + 64 * len(self.fresh), want)
+                cur = self.fresh[pv[1]]
             if cur is None or want is None or len(cur) != want:
                 raise Top("load at %s of a local that was not written whole with the same width" % i.loc)
             env[i.name] = cur
